@@ -1,35 +1,52 @@
 /-
 Props/C18.lean — property theorems for C18 (map[string]any inspector follows key paths through nested maps).
 
-For the repaired runtime model (`LibCfg.fixed`; only Capacity and the leaf comparison depend on the
-configuration), every tree, every key path, operator, operand and source: the outcome of Get / Length /
-Capacity / Compare / Set / Copy is accepted by the independent specification (Spec/StrAnyMapSpec.lean), with the
-pairing the driver uses (Driver/LibOps.lean `samapOp*`).
+For the repaired runtime model (`LibCfg.fixed`), every tree, every key path, operator, operand and source: the
+outcome of Get / Length / Capacity / Compare / Set / Copy is accepted by the independent specification
+(Spec/StrAnyMapSpec.lean), with the pairing the driver uses (Driver/LibOps.lean `samapOp*`).
+Each `…_correct` theorem has a general form `…_correct_cfg` for an arbitrary configuration under the switch
+values it really needs; the theorems about `LibCfg.fixed` and about the current tree (`LibCfg.repo`, section
+CurrentTree) are instances, so the latter do not depend on the position of the nil-pointer switch in `LibCfg.repo`.
 
 The model represents a Go map as an association list and a leaf as kind + value; the theorems need the
 representation invariants of real Go values, explicit as decidable predicates (Proofs/C18.lean):
-`JMapsOK` (as many values as keys, distinct keys, a nil map is empty) and `JLeavesOK` (a `.str` value has a text
-kind, a `.bytes` value has kind `[]byte`). `hypothesis_needed_*` below show that each is needed.
-The model of the current tree is rejected on the class `samap-cap-is-len` (`repo_not_correct`).
+`JMapsOK` (as many values as keys, distinct keys, a nil map is empty), `JLeavesOK` (a `.str` value has a text
+kind, a `.bytes` value has kind `[]byte`) and, where the repaired inspector goes on past a nil pointer to a map
+(Set), `JNilPtrsOK` (the node of a nil pointer is a nil map). `hypothesis_needed_*` show that each is needed.
+
+Nil pointers (switch `samapNilPtrPanics`, finding `samap-nil-ptr-panics`): the specification leaves the outcome
+open where a nil pointer to a map is on the way (`jnav … = .unspec`); C02 demands that nothing panics. Section
+NoPanic proves that of the repaired model for ALL trees, nil pointers included; `original_panics_nil_ptr` shows
+the panic of the model with the switch on. Copy of a tree containing a nil pointer to a map yields (repaired) a
+pointer to an empty map, which the tree comparison `jeq` tells apart from the source: `copy_correct`,
+`copy_correct_general`, `copy_independent` carry the hypothesis `jHasNilMap j = false` for the repaired model
+(`copy_hypothesis_needed`); `copy_correct_nil_ptrs` / `copy_correct_driver` cover every tree, comparing the copy with
+the source up to `jCopyNorm` (Spec/StrAnyMapSpec.lean: nil pointer to a map ↦ pointer to an empty map).
+The model of the tree at the pinned commit is rejected on the class `samap-cap-is-len` (`repo_not_correct`).
 -/
 import InspectorModel.Proofs.C18
 namespace Inspector.C18
 
 /-- The empty path addresses the node itself. -/
-theorem get_empty (j : JVal) : (match samapGet j [] with | .node _ => true | _ => false) = true := rfl
+theorem get_empty (cfg : LibCfg) (j : JVal) : (match samapGet cfg j [] with | .node _ => true | _ => false) = true := rfl
 
 /-! ### Get -/
 
+/-- Any configuration: Get hands out the node the path leads to, nothing for an absent key, the unsupported-type
+error through a non-map. -/
+theorem get_correct_cfg (cfg : LibCfg) (j : JVal) (p : List Bytes) (hw : JMapsOK j = true) :
+    samapGetAccepts j p (samapGet cfg j p) = true := by
+  have h := samapGet_jnav cfg p j
+  unfold samapGetAccepts
+  cases hn : jnav j p with
+  | found x => simp only [hn] at h; rw [h]; exact jeq_refl x (jnav_JMapsOK p j x hn hw)
+  | absent => simp only [hn] at h; rw [h]
+  | nonMap => simp only [hn] at h; rw [h]
+  | unspec => rfl
+
 /-- Get hands out the node the path leads to, nothing for an absent key, the unsupported-type error through a non-map. -/
 theorem get_correct (j : JVal) (p : List Bytes) (hw : JMapsOK j = true) :
-    samapGetAccepts j p (samapGet j p) = true := by
-  rw [samapGet_eq_jnav]
-  unfold samapGetAccepts
-  cases h : jnav j p with
-  | found x => exact jeq_refl x (jnav_JMapsOK p j x h hw)
-  | absent => rfl
-  | nonMap => rfl
-  | unspec => rfl
+    samapGetAccepts j p (samapGet LibCfg.fixed j p) = true := get_correct_cfg LibCfg.fixed j p hw
 
 /-- The driver's guard (`acc` of `samapOpGet`): a stored untyped nil is observed as "nothing". -/
 def getAcc (j : JVal) (p : List Bytes) (o : JGet) : Bool :=
@@ -38,46 +55,62 @@ def getAcc (j : JVal) (p : List Bytes) (o : JGet) : Bool :=
   | .found .nil => (match norm o with | .none => true | _ => false)
   | _ => samapGetAccepts j p o
 
-theorem get_correct_driver (j : JVal) (p : List Bytes) (hw : JMapsOK j = true) :
-    getAcc j p (samapGet j p) = true := by
-  have h := get_correct j p hw
+theorem get_correct_driver_cfg (cfg : LibCfg) (j : JVal) (p : List Bytes) (hw : JMapsOK j = true) :
+    getAcc j p (samapGet cfg j p) = true := by
+  have h := get_correct_cfg cfg j p hw
+  have hg := samapGet_jnav cfg p j
   unfold getAcc
-  rw [samapGet_eq_jnav] at h ⊢
   cases hn : jnav j p with
   | found x =>
     cases x with
-    | nil => rfl
-    | _ => simp only [hn] at h; exact h
-  | _ => simp only [hn] at h; exact h
+    | nil => simp only [hn] at hg; rw [hg]
+    | _ => exact h
+  | _ => exact h
 
-/-- Get panics only for a nil pointer to a map on the way. -/
-theorem get_panic_only (j : JVal) (p : List Bytes) (h : (match jnav j p with | .unspec => false | _ => true) = true) :
-    (match samapGet j p with | .panic => false | _ => true) = true := by
-  rw [samapGet_eq_jnav]
-  cases hn : jnav j p <;> simp [hn] at h ⊢
+theorem get_correct_driver (j : JVal) (p : List Bytes) (hw : JMapsOK j = true) :
+    getAcc j p (samapGet LibCfg.fixed j p) = true := get_correct_driver_cfg LibCfg.fixed j p hw
+
+/-- Any configuration: Get panics only for a nil pointer to a map on the way. -/
+theorem get_panic_only (cfg : LibCfg) (j : JVal) (p : List Bytes)
+    (h : (match jnav j p with | .unspec => false | _ => true) = true) :
+    (match samapGet cfg j p with | .panic => false | _ => true) = true := by
+  have hg := samapGet_jnav cfg p j
+  cases hn : jnav j p <;> simp only [hn] at h hg <;> first | (rw [hg]) | cases h
 
 /-! ### Length / Capacity -/
 
+theorem len_correct_cfg (cfg : LibCfg) (j : JVal) (p : List Bytes) (hw : JLeavesOK j = true) :
+    samapLcAccepts false j p (samapLen cfg j p) = true := samapLen_ok cfg p j hw
+
+theorem cap_correct_cfg (cfg : LibCfg) (hc : cfg.samapCapIsLen = false) (j : JVal) (p : List Bytes)
+    (hw : JLeavesOK j = true) :
+    samapLcAccepts true j p (samapCap cfg j p) = true := samapCap_ok cfg hc p j hw
+
 theorem len_correct (j : JVal) (p : List Bytes) (hw : JLeavesOK j = true) :
-    samapLcAccepts false j p (samapLen j p) = true := samapLen_ok p j hw
+    samapLcAccepts false j p (samapLen LibCfg.fixed j p) = true := samapLen_ok LibCfg.fixed p j hw
 
 theorem cap_correct (j : JVal) (p : List Bytes) (hw : JLeavesOK j = true) :
-    samapLcAccepts true j p (samapCap LibCfg.fixed j p) = true := samapCap_ok p j hw
+    samapLcAccepts true j p (samapCap LibCfg.fixed j p) = true := samapCap_ok LibCfg.fixed rfl p j hw
 
 /-- As the driver pairs them (`samapOpLC`). -/
 theorem lc_correct (isCap : Bool) (j : JVal) (p : List Bytes) (hw : JLeavesOK j = true) :
-    samapLcAccepts isCap j p (if isCap then samapCap LibCfg.fixed j p else samapLen j p) = true := by
+    samapLcAccepts isCap j p (if isCap then samapCap LibCfg.fixed j p else samapLen LibCfg.fixed j p) = true := by
   cases isCap
   · exact len_correct j p hw
   · exact cap_correct j p hw
 
 /-! ### Compare -/
 
+theorem cmp_correct_cfg (cfg : LibCfg) (hs : cfg.staticNilPtrPanics = false) (j : JVal) (p : List Bytes) (op : Op)
+    (right : Seg) (hw : JMapsOK j = true) :
+    samapCmpAccepts j p op right (samapCmp cfg j p op right) = true := samapCmp_ok cfg hs op right p j hw
+
 /-- Compare answers with the static comparison of the leaf the path leads to; absent keys leave the result
 alone; through a non-map the unsupported-type error is returned. (The driver skips inexact float operands;
 the theorem needs no such guard.) -/
 theorem cmp_correct (j : JVal) (p : List Bytes) (op : Op) (right : Seg) (hw : JMapsOK j = true) :
-    samapCmpAccepts j p op right (samapCmp LibCfg.fixed j p op right) = true := samapCmp_ok op right p j hw
+    samapCmpAccepts j p op right (samapCmp LibCfg.fixed j p op right) = true :=
+  samapCmp_ok LibCfg.fixed rfl op right p j hw
 
 /-- The leaf step on its own (C16's Compare statement): every operand, operator and operand text. -/
 theorem leaf_cmp_correct (s : Src) (op : Op) (right : Seg) :
@@ -95,20 +128,23 @@ def setAcc (j : JVal) (p : List Bytes) (src : Src) (o : JSet) : Bool :=
   | .panic => true
   | o => samapSetAccepts j p src o
 
-theorem set_correct_driver (j : JVal) (p : List Bytes) (src : Src) (hw : JMapsOK j = true) :
-    setAcc j p src (samapSet j p src) = true := by
+/-- Any configuration. `hnp`: either the inspector stops (panics) at a nil pointer to a map, or along the path the
+node of such a pointer is a nil map. -/
+theorem set_correct_driver_cfg (cfg : LibCfg) (j : JVal) (p : List Bytes) (src : Src) (hw : JMapsOK j = true)
+    (hnp : cfg.samapNilPtrPanics = true ∨ pathNilOK j p = true) :
+    setAcc j p src (samapSet cfg j p src) = true := by
   cases p with
   | nil => simp [samapSet, setAcc, samapSetAccepts, samapFrame_nil]
   | cons k rest =>
-    have hc := samapSet_claim src rest k j hw
+    have hc := samapSet_claim cfg src rest k j hw hnp
     unfold setAcc
-    cases hres : samapSet j (k :: rest) src with
+    cases hres : samapSet cfg j (k :: rest) src with
     | panic => rfl
     | ok after =>
       rw [hres] at hc
       obtain ⟨hf, hs⟩ := hc
       simp only [samapSetAccepts, hf, Bool.true_and]
-      cases hl : samapLeafOf src with
+      cases hl : samapStoredLeaf src with
       | none => rfl
       | some x =>
         have := hs x hl
@@ -118,56 +154,160 @@ theorem set_correct_driver (j : JVal) (p : List Bytes) (src : Src) (hw : JMapsOK
       rw [hres] at hc
       obtain ⟨hf, hs⟩ := hc
       simp only [samapSetAccepts, hf, Bool.true_and]
-      cases hl : samapLeafOf src with
+      cases hl : samapStoredLeaf src with
       | none => rfl
       | some x => simp only [hs]
 
-/-- Set panics only for a nil pointer as the value or a nil pointer to a map on the way. -/
-theorem set_panic_only (j : JVal) (p : List Bytes) (src : Src) (h : (match samapSet j p src with | .panic => true | _ => false) = true) :
+/-- The repaired Set goes on past a nil pointer to a map as past a nil map (nothing is created, the tree is
+unchanged): `JNilPtrsOK`, the representation of such a pointer, is needed (`hypothesis_needed_nil_ptrs`). -/
+theorem set_correct_driver (j : JVal) (p : List Bytes) (src : Src) (hw : JMapsOK j = true) (hn : JNilPtrsOK j = true) :
+    setAcc j p src (samapSet LibCfg.fixed j p src) = true :=
+  set_correct_driver_cfg LibCfg.fixed j p src hw (Or.inr (pathNilOK_of_tree p j hn))
+
+/-- Any configuration: Set panics only for a nil pointer as the value or a nil pointer to a map on the way
+(and, `set_no_panic_cfg`, only with the switch on). -/
+theorem set_panic_only (cfg : LibCfg) (j : JVal) (p : List Bytes) (src : Src)
+    (h : (match samapSet cfg j p src with | .panic => true | _ => false) = true) :
     src.v.isNilPtr = true ∨ nilPtrOnPath j p = true := by
-  cases hres : samapSet j p src with
+  cases hres : samapSet cfg j p src with
   | panic =>
-    rcases samapSet_panic src p j hres with h1 | h1
+    rcases (samapSet_panic cfg src p j hres).2 with h1 | h1
     · exact Or.inl h1
     · right; unfold nilPtrOnPath; rw [h1]
   | ok _ => simp [hres] at h
   | unsupported _ => simp [hres] at h
 
+/-- Any configuration, no nil pointer to a map on the way. -/
+theorem set_correct_cfg (cfg : LibCfg) (j : JVal) (p : List Bytes) (src : Src) (hw : JMapsOK j = true)
+    (hnp : nilPtrOnPath j p = false) :
+    samapSetAccepts j p src (samapSet cfg j p src) = true := by
+  have hnav : jnav j p ≠ .unspec := by
+    intro e; unfold nilPtrOnPath at hnp; rw [e] at hnp; cases hnp
+  have h := set_correct_driver_cfg cfg j p src hw (Or.inr (pathNilOK_of_nav p j hnav))
+  unfold setAcc at h
+  cases hres : samapSet cfg j p src with
+  | panic =>
+    rcases (samapSet_panic cfg src p j hres).2 with h1 | h1
+    · simpa [samapSetAccepts] using h1
+    · exact absurd h1 hnav
+  | ok after => rw [hres] at h; exact h
+  | unsupported after => rw [hres] at h; exact h
+
 /-- Set creates or replaces exactly the addressed leaf (creating intermediate maps), nothing else changes. -/
 theorem set_correct (j : JVal) (p : List Bytes) (src : Src) (hw : JMapsOK j = true) (hnp : nilPtrOnPath j p = false) :
-    samapSetAccepts j p src (samapSet j p src) = true := by
-  have h := set_correct_driver j p src hw
+    samapSetAccepts j p src (samapSet LibCfg.fixed j p src) = true := set_correct_cfg LibCfg.fixed j p src hw hnp
+
+/-- With a nil pointer to a map on the way as well, for the repaired model (no panic is left to be passed on). -/
+theorem set_correct_nil_ptrs (j : JVal) (p : List Bytes) (src : Src) (hw : JMapsOK j = true) (hn : JNilPtrsOK j = true) :
+    samapSetAccepts j p src (samapSet LibCfg.fixed j p src) = true := by
+  have h := set_correct_driver j p src hw hn
   unfold setAcc at h
-  cases hres : samapSet j p src with
-  | panic =>
-    rcases samapSet_panic src p j hres with h1 | h1
-    · simpa [samapSetAccepts] using h1
-    · unfold nilPtrOnPath at hnp; rw [h1] at hnp; cases hnp
+  cases hres : samapSet LibCfg.fixed j p src with
+  | panic => exact absurd hres (samapSet_no_panic LibCfg.fixed rfl src p j)
   | ok after => rw [hres] at h; exact h
   | unsupported after => rw [hres] at h; exact h
 
 /-! ### Copy -/
 
+/-- Any configuration. `hnm`: either Copy stops (panics) at a nil pointer to a map, or the tree has none. -/
+theorem copy_correct_cfg (cfg : LibCfg) (j c : JVal) (s : Nat) (hw : JMapsOK j = true)
+    (hnm : cfg.samapNilPtrPanics = true ∨ jHasNilMap j = false) (h : samapCpy cfg j = some (c, s)) :
+    jeq j c = true ∧ s = ptrLeafCount j := samapCpy_ok cfg j c s hw hnm h
+
 /-- Copy yields a tree equal to the source; the second component (pointers copied as pointers, the only
 thing source and copy share) is exactly the number of pointer-to-scalar leaves. -/
-theorem copy_correct_general (j c : JVal) (s : Nat) (hw : JMapsOK j = true) (h : samapCpy j = some (c, s)) :
-    jeq j c = true ∧ s = ptrLeafCount j := samapCpy_ok j c s hw h
+theorem copy_correct_general (j c : JVal) (s : Nat) (hw : JMapsOK j = true) (hnm : jHasNilMap j = false)
+    (h : samapCpy LibCfg.fixed j = some (c, s)) :
+    jeq j c = true ∧ s = ptrLeafCount j := samapCpy_ok LibCfg.fixed j c s hw (Or.inr hnm) h
 
 /-- As the driver judges it (`samapOpCopy`, root map not nil): `s ≤ ptrLeafCount … && jeq … c`. -/
 theorem copy_correct (ks : List Bytes) (vs : List JVal) (c : JVal) (s : Nat)
-    (hw : JMapsOK (.map 0 0 false ks vs) = true) (h : samapCpy (.map 0 0 false ks vs) = some (c, s)) :
+    (hw : JMapsOK (.map 0 0 false ks vs) = true) (hnm : jHasNilMap (.map 0 0 false ks vs) = false)
+    (h : samapCpy LibCfg.fixed (.map 0 0 false ks vs) = some (c, s)) :
     (decide (s ≤ ptrLeafCount (.map 0 0 false ks vs)) && jeq (.map 0 0 false ks vs) c) = true := by
-  obtain ⟨h1, h2⟩ := samapCpy_ok _ c s hw h
+  obtain ⟨h1, h2⟩ := samapCpy_ok LibCfg.fixed _ c s hw (Or.inr hnm) h
   simp [h1, h2]
 
 /-- Independence: on the trees the property quantifies over (no pointer-to-scalar leaves) nothing is shared. -/
-theorem copy_independent (j c : JVal) (s : Nat) (hw : JMapsOK j = true) (h : samapCpy j = some (c, s))
-    (hq : ptrLeafCount j = 0) : s = 0 := by
-  rw [(samapCpy_ok j c s hw h).2, hq]
+theorem copy_independent (j c : JVal) (s : Nat) (hw : JMapsOK j = true) (hnm : jHasNilMap j = false)
+    (h : samapCpy LibCfg.fixed j = some (c, s)) (hq : ptrLeafCount j = 0) : s = 0 := by
+  rw [(samapCpy_ok LibCfg.fixed j c s hw (Or.inr hnm) h).2, hq]
 
-/-- Copy panics only for a nil pointer (to a map, or a nil `*string` / `*[]byte` leaf) somewhere in the tree. -/
-theorem copy_panic_only (j : JVal) (h : (samapCpy j).isNone = true) : jHasNil j = true :=
-  samapCpy_none j (by simpa using h)
+/-- Any configuration: Copy panics only for a nil pointer (to a map, or a nil `*string` / `*[]byte` leaf) somewhere
+in the tree (and, `copy_no_panic_cfg`, only with the switch on). -/
+theorem copy_panic_only (cfg : LibCfg) (j : JVal) (h : (samapCpy cfg j).isNone = true) : jHasNil j = true :=
+  (samapCpy_none cfg j (by simpa using h)).2
+
+/-- Any configuration, nil pointers to maps included: the copy is the source up to `jCopyNorm` (a nil pointer to a
+map stands for a pointer to an empty map in the same holding form). `hnp`: either Copy stops (panics) at such a
+pointer, or its node is a nil map (`JNilPtrsOK`). -/
+theorem copy_correct_norm_cfg (cfg : LibCfg) (j c : JVal) (s : Nat) (hw : JMapsOK j = true)
+    (hnp : cfg.samapNilPtrPanics = true ∨ JNilPtrsOK j = true) (h : samapCpy cfg j = some (c, s)) :
+    jeq (jCopyNorm j) c = true ∧ s = ptrLeafCount j := samapCpy_norm cfg j c s hw hnp h
+
+/-- The repaired Copy of EVERY tree (of Go values: `JMapsOK`, `JNilPtrsOK`) succeeds, and the copy is the source up
+to `jCopyNorm`; pointers to scalars are all it shares with the source. -/
+theorem copy_correct_nil_ptrs (j : JVal) (hw : JMapsOK j = true) (hn : JNilPtrsOK j = true) :
+    (match samapCpy LibCfg.fixed j with
+     | some (c, s) => jeq (jCopyNorm j) c && s == ptrLeafCount j
+     | none => false) = true := by
+  cases h : samapCpy LibCfg.fixed j with
+  | none => have := samapCpy_no_panic LibCfg.fixed rfl j; rw [h] at this; cases this
+  | some r =>
+    obtain ⟨c, s⟩ := r
+    obtain ⟨h1, h2⟩ := samapCpy_norm LibCfg.fixed j c s hw (Or.inr hn) h
+    simp [h1, h2]
+
+/-- As the driver judges it (`samapOpCopy`, root map not nil), nil pointers to maps inside the tree included. -/
+theorem copy_correct_driver (ks : List Bytes) (vs : List JVal) (c : JVal) (s : Nat)
+    (hw : JMapsOK (.map 0 0 false ks vs) = true) (hn : JNilPtrsOK (.map 0 0 false ks vs) = true)
+    (h : samapCpy LibCfg.fixed (.map 0 0 false ks vs) = some (c, s)) :
+    (decide (s ≤ ptrLeafCount (.map 0 0 false ks vs)) && jeq (jCopyNorm (.map 0 0 false ks vs)) c) = true := by
+  obtain ⟨h1, h2⟩ := samapCpy_norm LibCfg.fixed _ c s hw (Or.inr hn) h
+  simp [h1, h2]
+
+/-- `jCopyNorm` is the identity on trees without a nil pointer to a map (`jCopyNorm_id`, Proofs/C18.lean): there
+`copy_correct_driver` is `copy_correct`. -/
+example (j : JVal) (h : jHasNilMap j = false) : jCopyNorm j = j := jCopyNorm_id j h
+
+/-- The repaired Copy of a nil pointer to a map (`n ≠ 0`): a pointer to an empty map in the same holding form. -/
+theorem copy_nil_ptr_map (hold n : Nat) :
+    (match samapCpy LibCfg.fixed (.map hold n true [] []) with
+     | some (.map h' 0 false [] [], 0) => h' == hold
+     | _ => false) = true := by
+  simp [samapCpy, samapCpyList, LibCfg.fixed]
+
+/-! ### C02: the repaired model never panics — every tree, nil pointers included -/
+section NoPanic
+
+theorem get_no_panic_cfg (cfg : LibCfg) (hc : cfg.samapNilPtrPanics = false) (j : JVal) (p : List Bytes) :
+    samapGet cfg j p ≠ .panic := samapGet_no_panic cfg hc p j
+theorem cmp_no_panic_cfg (cfg : LibCfg) (hc : cfg.samapNilPtrPanics = false) (hs : cfg.staticNilPtrPanics = false)
+    (j : JVal) (p : List Bytes) (op : Op) (right : Seg) :
+    (samapCmp cfg j p op right).1 ≠ .panic := samapCmp_no_panic cfg hc hs op right p j
+theorem len_no_panic_cfg (cfg : LibCfg) (hc : cfg.samapNilPtrPanics = false) (j : JVal) (p : List Bytes) :
+    samapLen cfg j p ≠ .panic := samapLen_no_panic cfg hc p j
+theorem cap_no_panic_cfg (cfg : LibCfg) (hc : cfg.samapNilPtrPanics = false) (j : JVal) (p : List Bytes) :
+    samapCap cfg j p ≠ .panic := samapCap_no_panic cfg hc p j
+theorem set_no_panic_cfg (cfg : LibCfg) (hc : cfg.samapNilPtrPanics = false) (j : JVal) (p : List Bytes) (src : Src) :
+    samapSet cfg j p src ≠ .panic := samapSet_no_panic cfg hc src p j
+theorem copy_no_panic_cfg (cfg : LibCfg) (hc : cfg.samapNilPtrPanics = false) (j : JVal) :
+    (samapCpy cfg j).isSome = true := samapCpy_no_panic cfg hc j
+
+theorem get_no_panic (j : JVal) (p : List Bytes) : samapGet LibCfg.fixed j p ≠ .panic :=
+  samapGet_no_panic LibCfg.fixed rfl p j
+theorem cmp_no_panic (j : JVal) (p : List Bytes) (op : Op) (right : Seg) :
+    (samapCmp LibCfg.fixed j p op right).1 ≠ .panic := samapCmp_no_panic LibCfg.fixed rfl rfl op right p j
+theorem len_no_panic (j : JVal) (p : List Bytes) : samapLen LibCfg.fixed j p ≠ .panic :=
+  samapLen_no_panic LibCfg.fixed rfl p j
+theorem cap_no_panic (j : JVal) (p : List Bytes) : samapCap LibCfg.fixed j p ≠ .panic :=
+  samapCap_no_panic LibCfg.fixed rfl p j
+theorem set_no_panic (j : JVal) (p : List Bytes) (src : Src) : samapSet LibCfg.fixed j p src ≠ .panic :=
+  samapSet_no_panic LibCfg.fixed rfl src p j
+theorem copy_no_panic (j : JVal) : (samapCpy LibCfg.fixed j).isSome = true :=
+  samapCpy_no_panic LibCfg.fixed rfl j
+
+end NoPanic
 
 section NonVacuity
 def key (t : String) : Bytes := strBytes t
@@ -178,62 +318,126 @@ def exJ : JVal :=
      .map 1 0 false [key "s"] [.leaf { kind := .string, v := .str (strBytes "xy") }],
      .leaf { kind := .bytes, v := .bytes false (strBytes "ab") 8 }]
 def srcStr : Src := { kind := .string, v := .str (strBytes "new") }
+/-- `{"a": 5, "n": (*map[string]any)(nil), "t": (*string)(nil)}` -/
+def exNilJ : JVal :=
+  .map 0 0 false [key "a", key "n", key "t"]
+    [.leaf { kind := .int, v := .int 5 },
+     .map 1 1 true [] [],
+     .leaf { kind := .string, isPtr := true, v := .nilptr }]
+def srcNilStr : Src := { kind := .string, isPtr := true, v := .nilptr }
 
-example : JMapsOK exJ = true ∧ JLeavesOK exJ = true := by decide
-example : nilPtrOnPath exJ [key "m", key "t"] = false ∧ jHasNil exJ = false := by decide
-example : (match samapGet exJ [key "m", key "s"] with | .node (.leaf s) => s.v == .str (strBytes "xy") | _ => false) = true := by decide
-example : samapLen exJ [key "m"] = .val 1 := by decide
+example : JMapsOK exJ = true ∧ JLeavesOK exJ = true ∧ JNilPtrsOK exJ = true := by decide
+example : JMapsOK exNilJ = true ∧ JLeavesOK exNilJ = true ∧ JNilPtrsOK exNilJ = true := by decide
+example : nilPtrOnPath exJ [key "m", key "t"] = false ∧ jHasNil exJ = false ∧ jHasNilMap exJ = false := by decide
+example : nilPtrOnPath exNilJ [key "n", key "x"] = true ∧ jHasNilMap exNilJ = true := by decide
+example : (match samapGet LibCfg.fixed exJ [key "m", key "s"] with | .node (.leaf s) => s.v == .str (strBytes "xy") | _ => false) = true := by decide
+example : samapLen LibCfg.fixed exJ [key "m"] = .val 1 := by decide
 example : samapCap LibCfg.fixed exJ [key "b"] = .val 8 := by decide
-example : (match samapSet exJ [key "m", key "t"] srcStr with
-    | .ok after => (match samapGet after [key "m", key "t"] with | .node (.leaf s) => s.v == .str (strBytes "new") | _ => false)
+example : (match samapSet LibCfg.fixed exJ [key "m", key "t"] srcStr with
+    | .ok after => (match samapGet LibCfg.fixed after [key "m", key "t"] with | .node (.leaf s) => s.v == .str (strBytes "new") | _ => false)
     | _ => false) = true := by decide
-example : (match samapCpy exJ with | some (c, s) => jeq exJ c && s == 0 | none => false) = true := by decide
+example : (match samapCpy LibCfg.fixed exJ with | some (c, s) => jeq exJ c && s == 0 | none => false) = true := by decide
 
 /-- Known finding `samap-cap-is-len`: Capacity with a non-empty path answers with the length. -/
 theorem repo_not_correct :
     samapLcAccepts true exJ [key "b"] (samapCap LibCfg.original exJ [key "b"]) = false := by decide
 
+/-- Known finding `samap-nil-ptr-panics` (C02): with the switch on, a nil `*map[string]any` on the way, a nil
+`*string` leaf and a nil `*string` value make the inspector panic; the repaired inspector reads through the nil
+pointer as through a nil map (nothing found, length 0, nothing set), leaves / stores the nil `*string` as it is,
+and copies the nil pointer to a map as a pointer to an empty map. -/
+theorem original_panics_nil_ptr :
+    (match samapGet LibCfg.original exNilJ [key "n", key "x"] with | .panic => true | _ => false) = true ∧
+    (match samapGet LibCfg.fixed exNilJ [key "n", key "x"] with | .none => true | _ => false) = true ∧
+    (samapCmp LibCfg.original exNilJ [key "n", key "x"] 1 { text := strBytes "1", pi := some 1 }).1 = .panic ∧
+    (samapCmp LibCfg.fixed exNilJ [key "n", key "x"] 1 { text := strBytes "1", pi := some 1 }).1 = .untouched ∧
+    samapLen LibCfg.original exNilJ [key "n"] = .panic ∧ samapLen LibCfg.fixed exNilJ [key "n"] = .val 0 ∧
+    samapLen LibCfg.original exNilJ [key "t"] = .panic ∧ samapLen LibCfg.fixed exNilJ [key "t"] = .untouched ∧
+    samapCap LibCfg.original exNilJ [key "n", key "x"] = .panic ∧ samapCap LibCfg.fixed exNilJ [key "n", key "x"] = .untouched ∧
+    (match samapSet LibCfg.original exNilJ [key "n", key "x"] srcStr with | .panic => true | _ => false) = true ∧
+    (match samapSet LibCfg.fixed exNilJ [key "n", key "x"] srcStr with | .ok after => jeq exNilJ after | _ => false) = true ∧
+    (match samapSet LibCfg.original exNilJ [key "a"] srcNilStr with | .panic => true | _ => false) = true ∧
+    (match samapSet LibCfg.fixed exNilJ [key "a"] srcNilStr with
+      | .ok after => (match samapGet LibCfg.fixed after [key "a"] with | .node (.leaf s) => s.v.isNilPtr | _ => false)
+      | _ => false) = true ∧
+    (samapCpy LibCfg.original exNilJ).isNone = true ∧
+    (match samapCpy LibCfg.fixed exNilJ with
+      | some (.map 0 0 false _ [_, .map 1 0 false [] [], .leaf s], 0) => s.v.isNilPtr
+      | _ => false) = true := by decide
+
 /-- `JMapsOK` is needed: with a repeated key (not a Go map) the tree is not even equal to itself. -/
 example : let j : JVal := .map 0 0 false [key "a", key "a"] [.leaf { kind := .int, v := .int 1 }, .leaf { kind := .int, v := .int 2 }]
-    samapGetAccepts j [] (samapGet j []) = false := by decide
+    samapGetAccepts j [] (samapGet LibCfg.fixed j []) = false := by decide
 /-- `JMapsOK` is needed: a "nil map with entries" (not a Go value) is navigated by the spec but not by Compare. -/
 example : let j : JVal := .map 0 0 true [key "a"] [.leaf { kind := .int, v := .int 1 }]
     samapCmpAccepts j [key "a"] 1 { text := strBytes "1", pi := some 1 } (samapCmp LibCfg.fixed j [key "a"] 1 { text := strBytes "1", pi := some 1 }) = false := by decide
 /-- `JLeavesOK` is needed: an `int` leaf carrying a string value (not a Go value). -/
 example : let j : JVal := .leaf { kind := .int, v := .str (strBytes "x") }
-    samapLcAccepts false j [] (samapLen j []) = false := by decide
+    samapLcAccepts false j [] (samapLen LibCfg.fixed j []) = false := by decide
+/-- `JNilPtrsOK` is needed for `set_correct_driver`: "a nil pointer to a non-nil map" (not a Go value) — the
+repaired Set would go on and store into it. -/
+theorem hypothesis_needed_nil_ptrs :
+    let j : JVal := .map 0 0 false [key "n"] [.map 1 1 false [] []]
+    JMapsOK j = true ∧ JNilPtrsOK j = false ∧
+    setAcc j [key "n", key "x"] srcStr (samapSet LibCfg.fixed j [key "n", key "x"] srcStr) = false := by decide
+/-- `jHasNilMap j = false` is needed for `copy_correct_general`: the repaired Copy turns a nil pointer to a map
+into a pointer to an empty map, and the tree comparison tells the two apart. -/
+theorem copy_hypothesis_needed :
+    JMapsOK exNilJ = true ∧ JNilPtrsOK exNilJ = true ∧
+    (match samapCpy LibCfg.fixed exNilJ with | some (c, _) => jeq exNilJ c | none => true) = false := by decide
 end NonVacuity
 
 /-! ### The tree as it is now
 
-After `fix: StringAnyMapInspector.Capacity descended into Length` the only switch of this inspector left on in
-`LibCfg.repo` concerns nil pointers (C02). Get, Length, Set and Copy never consulted a switch; Capacity of the
-current tree is the repaired Capacity. -/
+After `fix: StringAnyMapInspector.Capacity descended into Length` the only switch of this inspector that may still
+be on in `LibCfg.repo` is `samapNilPtrPanics` (nil pointers, C02). The statements below are instances of the
+`…_cfg` theorems: they read `samapCapIsLen` and `staticNilPtrPanics` of `LibCfg.repo` (both off) and hold for either
+position of `samapNilPtrPanics`. -/
 section CurrentTree
 
-theorem cap_repo_eq (p : List Bytes) : ∀ (j : JVal), samapCap LibCfg.repo j p = samapCap LibCfg.fixed j p := by
-  induction p with
-  | nil => intro j; rfl
-  | cons k rest ih =>
-    intro j
-    unfold samapCap
-    cases j with
-    | map hold nilAt mapNil ks vs =>
-      simp only []
-      split
-      · rfl
-      · cases JVal.lookup ks vs k with
-        | none => rfl
-        | some x =>
-          have h1 : LibCfg.repo.samapCapIsLen = false := rfl
-          have h2 : LibCfg.fixed.samapCapIsLen = false := rfl
-          simp only [h1, h2, Bool.false_eq_true, if_false]
-          exact ih x
-    | _ => rfl
+/-- Capacity of the current tree is the repaired Capacity, up to the nil-pointer switch. -/
+theorem cap_repo_eq (p : List Bytes) (j : JVal) :
+    samapCap LibCfg.repo j p
+      = samapCap { LibCfg.fixed with samapNilPtrPanics := LibCfg.repo.samapNilPtrPanics } j p :=
+  samapCap_congr _ _ rfl rfl p j
+
+theorem get_current (j : JVal) (p : List Bytes) (hw : JMapsOK j = true) :
+    getAcc j p (samapGet LibCfg.repo j p) = true := get_correct_driver_cfg LibCfg.repo j p hw
+
+theorem len_current (j : JVal) (p : List Bytes) (hw : JLeavesOK j = true) :
+    samapLcAccepts false j p (samapLen LibCfg.repo j p) = true := len_correct_cfg LibCfg.repo j p hw
 
 theorem cap_current (j : JVal) (p : List Bytes) (hw : JLeavesOK j = true) :
-    samapLcAccepts true j p (samapCap LibCfg.repo j p) = true := by
-  rw [cap_repo_eq p j]; exact cap_correct j p hw
+    samapLcAccepts true j p (samapCap LibCfg.repo j p) = true := cap_correct_cfg LibCfg.repo rfl j p hw
+
+theorem cmp_current (j : JVal) (p : List Bytes) (op : Op) (right : Seg) (hw : JMapsOK j = true) :
+    samapCmpAccepts j p op right (samapCmp LibCfg.repo j p op right) = true :=
+  cmp_correct_cfg LibCfg.repo rfl j p op right hw
+
+theorem set_current (j : JVal) (p : List Bytes) (src : Src) (hw : JMapsOK j = true) (hnp : nilPtrOnPath j p = false) :
+    samapSetAccepts j p src (samapSet LibCfg.repo j p src) = true := set_correct_cfg LibCfg.repo j p src hw hnp
+
+theorem set_driver_current (j : JVal) (p : List Bytes) (src : Src) (hw : JMapsOK j = true) (hn : JNilPtrsOK j = true) :
+    setAcc j p src (samapSet LibCfg.repo j p src) = true :=
+  set_correct_driver_cfg LibCfg.repo j p src hw (Or.inr (pathNilOK_of_tree p j hn))
+
+theorem copy_current (j c : JVal) (s : Nat) (hw : JMapsOK j = true) (hnm : jHasNilMap j = false)
+    (h : samapCpy LibCfg.repo j = some (c, s)) :
+    jeq j c = true ∧ s = ptrLeafCount j := copy_correct_cfg LibCfg.repo j c s hw (Or.inr hnm) h
+
+theorem copy_norm_current (j c : JVal) (s : Nat) (hw : JMapsOK j = true) (hn : JNilPtrsOK j = true)
+    (h : samapCpy LibCfg.repo j = some (c, s)) :
+    jeq (jCopyNorm j) c = true ∧ s = ptrLeafCount j := copy_correct_norm_cfg LibCfg.repo j c s hw (Or.inr hn) h
+
+/-- Since `fix: StringAnyMapInspector dereferenced nil pointers` the switch is off in the tree as it is: no method
+of the map[string]any inspector panics, whatever nil pointers the tree holds. -/
+theorem no_panic_current (j : JVal) (p : List Bytes) (op : Op) (right : Seg) (src : Src) :
+    samapGet LibCfg.repo j p ≠ .panic ∧ (samapCmp LibCfg.repo j p op right).1 ≠ .panic ∧
+    samapLen LibCfg.repo j p ≠ .panic ∧ samapCap LibCfg.repo j p ≠ .panic ∧
+    samapSet LibCfg.repo j p src ≠ .panic ∧ (samapCpy LibCfg.repo j).isSome = true :=
+  ⟨get_no_panic_cfg LibCfg.repo rfl j p, cmp_no_panic_cfg LibCfg.repo rfl rfl j p op right,
+   len_no_panic_cfg LibCfg.repo rfl j p, cap_no_panic_cfg LibCfg.repo rfl j p,
+   set_no_panic_cfg LibCfg.repo rfl j p src, copy_no_panic_cfg LibCfg.repo rfl j⟩
 
 end CurrentTree
 
